@@ -91,6 +91,7 @@ class Injector:
         self.sig = sig
         self.n = 0
         self.armed = False
+        self.kept_waiting = None
         self.fired = None     # (where, t)
         self.kernel = None
         self.site = "blocked-read"
@@ -149,6 +150,14 @@ class Injector:
         return None
 
     def on_block(self, kernel, fd):
+        # cond is about to block waiting for a child.  If the signal has already arrived, every task that was running then
+        # must have been sent SIGTERM by now: going back to sleep until a task ends by itself is "keeps waiting silently".
+        if self.fired is not None and self.kept_waiting is None:
+            sigterm = int(signal.SIGTERM)
+            w = [kernel.procs[pid].name for pid in self.fired[2]
+                 if kernel.procs[pid].state == "run" and not any(s == sigterm for _, s in kernel.procs[pid].killed)]
+            if w:
+                self.kept_waiting = w
         self.point("blocked-read", None)
 
 
@@ -282,6 +291,9 @@ def make(n, kinds, jobs_hi, sigterm_bit=True, orders="rev", include=False):
             kern = res.kernel
             ctxt = "signal %s at point %d/%d (%s); %s" % (sig.name, k, L, where, D)
             # (a) every started, not yet reaped process group gets SIGTERM
+            g.require(inj.kept_waiting is None, "abort:kept-waiting-without-terminating@" + func,
+                      "after the signal cond blocked again waiting for a child although %s was still running and had not been sent SIGTERM "
+                      "(the task then runs to its natural end); %s" % (inj.kept_waiting, ctxt))
             for pid in running_at:
                 p = kern.procs[pid]
                 got = [t for t, s in p.killed if s == int(signal.SIGTERM) and t >= t_inj]
